@@ -646,6 +646,8 @@ def _variants():
 
     PU, PW = "permuta/permutils/pinword_util.py", "permuta/permutils/pin_words.py"
     return [
+        V("gap-condition-added", insert_stmt("permuta/permutils/pin_words.py", "PinWords.pinword_occurrences.rec", "res.append(occ)", "if j > 0 and occ == i and word[occ] in DIRS:\n    continue", "before"), "silent", note="the repair of the known finding C14-D2: the rule must accept it"),
+        V("gap-condition-wrong-letter-class", insert_stmt("permuta/permutils/pin_words.py", "PinWords.pinword_occurrences.rec", "res.append(occ)", "if j > 0 and occ == i and word[occ] in QUADS:\n    continue", "before"), "undecided", "C14-D2"),
         V("table-missing-letter", replace_expr(PU, "PinWordUtil.__init__", "{'1': self.char_1, '2': self.char_2, '3': self.char_3, '4': self.char_4, 'U': self.char_u, 'L': self.char_l, 'D': self.char_d, 'R': self.char_r}",
                                                "{'1': self.char_1, '2': self.char_2, '3': self.char_3, '4': self.char_4, 'U': self.char_u, 'L': self.char_l, 'D': self.char_d}"), "fire", "C14-H1"),
         V("table-shared-handler", replace_expr(PU, "PinWordUtil.__init__", "self.char_d", "self.char_u"), "fire", "C14-H1"),
@@ -794,7 +796,29 @@ def _rec_shape(ctx: Ctx, occ: FuncInfo) -> None:
     else:
         ctx.violation("C14-D1", rec, calls[0], f"the search continues with ({', '.join(args)}); the next factor must start at or after {o} + len({us}[{j}]) (no overlap with the current match) and be factor j + 1")
         return
-    stm = [unparse(s) for s in lp.body if not isinstance(s, ast.For)]
+    # D2 – the gap condition of the containment lemma (Brignall-Ruskuc-Vatter Lemma 3.3 / BBPR Thm 3.13): in the chopping
+    # w = v1 w1 v2 w2 ... a factor w_k that begins with a *direction* letter needs a non-empty gap v_k before it.  For the
+    # first factor the gap is automatic (a pin word starts with a numeral); for a later one the placement `occ == i`
+    # (touching the previous factor) at a direction letter must be rejected.
+    guards = [s for s in lp.body if isinstance(s, ast.If)]
+    lp_body_wo_guard = [s for s in lp.body if s not in guards]
+    gap_ok = False
+    for g in guards:
+        conj = {unparse(c) for c in (g.test.values if isinstance(g.test, ast.BoolOp) and isinstance(g.test.op, ast.And) else [g.test])}
+        touching = conj & {f"{o} == {i}", f"{i} == {o}", f"{o} <= {i}"}
+        direction = conj & {f"{w}[{o}] in DIRS", f"{w}[{o}] not in QUADS"}
+        later = conj & {f"{j} > 0", f"{j} >= 1", f"{j} != 0", j, f"0 < {j}"}
+        if touching and direction and conj <= touching | direction | later and len(g.body) == 1 and isinstance(g.body[0], ast.Continue) and not g.orelse \
+                and lp.body.index(g) < min(lp.body.index(s) for s in lp_body_wo_guard):
+            gap_ok = True
+        else:
+            raise AnalysisError(f"{rec.where}: guard `{unparse(g.test)[:60]}` in the placement loop not recognised")
+    if gap_ok:
+        ctx.ok("C14-D2", rec.where, "a later factor placed directly after the previous one is rejected when it is matched at a direction letter (gap condition of the containment lemma)", lp, rec)
+    else:
+        ctx.violation("C14-D2", rec, lp, "consecutive factors may touch even when the next one is matched at a direction letter: the containment lemma requires a gap there; e.g. pinword_contains('1U', '11') is True although perm('1U') = 10 does not contain perm('11') = 01")
+    lp_view = ast.For(target=lp.target, iter=lp.iter, body=lp_body_wo_guard, orelse=[])
+    stm = [unparse(s) for s in lp_view.body if not isinstance(s, ast.For)]
     if stm[:1] == [f"{res}.append({o})"] and stm[-1:] == [f"{res}.pop()"]:
         ctx.ok("C14-D1", rec.where, "match list is extended before and restored after exploring a placement (backtracking)", lp, rec)
     else:
@@ -840,6 +864,7 @@ def run(ctx: Ctx) -> None:  # noqa: F811
 
 
 FLOORS["C14-D1"] = 8
+FLOORS["C14-D2"] = 1
 EXPLANATION = EXPLANATION.replace("NOT decided: (d) that pattern containment is reflected by the factor-by-factor word search", "Of (d) only the by-construction parts are decided (D1: contains = NonEmpty(occurrences), "
                                   "the strict-factor test of Lemma 3.12 at every start index, factors placed in order after the end of the previous match, factorisation into numeral-led blocks). "
                                   "NOT decided: (d) that pattern containment is reflected by the factor-by-factor word search")
